@@ -466,6 +466,17 @@ def check_generic(prop, tier, cfgs, n_quick, n_thorough, sigfun, stages, level="
             tp = Program(len(progs), gen_mini.occurrence_table(), root, "table:occurrence")
             tp.port = None
             progs.append(tp)
+        if prop in ("C01", "C02", "C08", "C09", "C10"):
+            # one namespace in two files, imported with another namespace's file in between
+            for label, ss in gen_mini.split_namespace_family():
+                sp = Program(len(progs), ss, root, label)
+                sp.port = None
+                progs.append(sp)
+        if prop in ("C01", "C02", "C09", "C10"):
+            for label, ss in gen_mini.inner_xmlns_family():
+                ip = Program(len(progs), ss, root, label)
+                ip.port = None
+                progs.append(ip)
         if prop in ("C01", "C08", "C10"):
             # many namespaces with one abbreviation: more than nine, and more than ninety-nine in the thorough tier
             for n, ext in ((13, False), (24, True)) if tier == "quick" else ((13, False), (24, True), (112, True), (120, False)):
